@@ -107,16 +107,12 @@ func execC05Remote(a c05rArgs) CaseOut {
 	dir1, dir2 := filepath.Join(dir, "n1"), filepath.Join(dir, "n2")
 	os.MkdirAll(dir1, 0o700)
 	os.MkdirAll(dir2, 0o700)
-	port2 := freePort()
-	n2args := []string{"--tcp-listener", fmt.Sprintf("port=%d", port2), "bindaddr=127.0.0.1"}
-	d2, err := startDaemon(dir2, "n2", nil, n2args...)
+	d2, port2, err := startDaemonListening(dir2, "n2", nil)
 	if err != nil {
 		out.violate("harness:c05r-daemon", "n2: %v", err)
-		if d2 != nil {
-			d2.kill()
-		}
 		return out
 	}
+	n2args := []string{"--tcp-listener", fmt.Sprintf("port=%d", port2), "bindaddr=127.0.0.1"}
 	defer func() { d2.kill() }()
 	relay, rport, err := newTCPRelay(fmt.Sprintf("127.0.0.1:%d", port2))
 	if err != nil {
